@@ -24,7 +24,7 @@ RULE = ("Formula/Matrix/Numerical graders with the default equality comparison w
 ASSUMPTIONS = ["the k-th draw of every scripted variable belongs to the k-th sample (one answer alternative, so one "
                "sampling pass per call) - verified by the agreement of 100% of judged cases on the unchanged tree",
                "reference evaluation keeps reals real; cases with intermediates > 1e8 or ill-conditioned are discarded"]
-REQUIRED = {'mid-failures': 150, 'near-boundary': 100, 'pct-asymmetric': 60, 'array': 150, 'exact/identical': 100, 'tight-percentage': 100, 'array/frobenius-vs-max': 40,
+REQUIRED = {'mid-failures': 150, 'near-boundary': 100, 'pct-asymmetric': 60, 'array': 150, 'exact/identical': 100, 'tight-percentage': 100, 'random-function': 100, 'array/frobenius-vs-max': 40,
             'exact/dyadic-on': 60, 'exact/dyadic-off': 60, 'rewrite': 150, 'infinity': 60, 'numerical': 60,
             'complex-samples': 80}
 
@@ -60,12 +60,22 @@ def sample_values():
 
 @st.composite
 def specs(draw):
-    kind = draw(st.sampled_from(['poly', 'poly', 'poly', 'scale', 'pct', 'tightpct', 'rewrite', 'branch', 'identical', 'dyadic',
+    kind = draw(st.sampled_from(['poly', 'poly', 'poly', 'scale', 'pct', 'tightpct', 'randfunc', 'rewrite', 'branch', 'identical', 'dyadic',
                                  'infinity', 'numerical', 'array', 'array']))
     real, cplx = sample_values()
     ns = draw(st.integers(1, 8))
     spec = {'kind': kind, 'seed': draw(st.integers(0, 10 ** 6)), 'credit': draw(st.sampled_from([1, 1, 0.5, 0.3])),
             'ws': draw(X.whitespace_styles())}
+    if kind == 'randfunc':
+        # the answer applies a RANDOMLY SAMPLED function (redrawn at every sample) to literal numbers only: author and
+        # student must be evaluated with the same draw at every sample (a seeded change cached the author's value of
+        # "variable-free" answers at the first sample)
+        spec['samples'] = draw(st.integers(2, 6))
+        spec['failable'] = draw(st.integers(0, 1))
+        spec['tol'] = draw(st.sampled_from([1e-9, 0.01, '0.01%', '1%']))
+        spec['answer'] = draw(st.sampled_from(['f(0)+2*f(1)', 'f(2)', 'f(0.5)*f(1.5)', 'f(1)-f(0)', 'h(1,2)+f(0)']))
+        spec['rewrite'] = draw(st.sampled_from(['same', 'commute', 'times1', 'plus0', 'wrong']))
+        return spec
     if kind == 'tightpct':
         # very tight percentage tolerances (a seeded change rounded the stored percentage to 6 decimals)
         spec['samples'] = draw(st.integers(1, 4))
@@ -293,8 +303,41 @@ def judge_tightpct(spec, rec):
     return {'answer': a_str, 'student': s_str, 'tol': spec['tol'], 'grade': gd(k, r)}
 
 
+RF_REWRITES = {
+    'f(0)+2*f(1)': {'commute': '2*f(1)+f(0)', 'wrong': 'f(0)+2*f(1)+5'},
+    'f(2)': {'commute': '0+f(2)', 'wrong': 'f(2)+9'},
+    'f(0.5)*f(1.5)': {'commute': 'f(1.5)*f(0.5)', 'wrong': 'f(0.5)*f(1.5)+4'},
+    'f(1)-f(0)': {'commute': '-f(0)+f(1)', 'wrong': 'f(1)-f(0)+7'},
+    'h(1,2)+f(0)': {'commute': 'f(0)+h(1,2)', 'wrong': 'h(1,2)+f(0)-6'},
+}
+
+
+def judge_randfunc(spec, rec):
+    from mitxgraders import RandomFunction
+    a_str = spec['answer']
+    how = spec['rewrite']
+    s_str = {'same': a_str, 'times1': '1*(%s)' % a_str, 'plus0': '(%s)+0' % a_str}.get(how) or RF_REWRITES[a_str][how]
+    cfg = dict(answers={'expect': a_str, 'grade_decimal': spec['credit']}, tolerance=spec['tol'],
+               samples=spec['samples'], failable_evals=spec['failable'],
+               user_functions={'f': RandomFunction(), 'h': RandomFunction(input_dim=2)})
+    g = FormulaGrader(**cfg)
+    k, r = grade(g, s_str, spec)
+    rec.calls()
+    # identical rewrites agree at every sample up to rounding (values are O(10), tolerances >= 1e-9); the wrong
+    # variants miss by >= 4 at every sample while |f| <= 10 keeps every percentage tolerance below 1
+    want = 0 if how == 'wrong' else spec['credit']
+    check_grade(spec, k, r, want, 'random-function answer %r student %r tol %r samples %d failable %d' % (
+        a_str, s_str, spec['tol'], spec['samples'], spec['failable']), rec,
+        'random-function/%s' % ('accepted-beyond-tolerance' if want == 0 else 'rewrite-rejected'))
+    rec.cls('random-function')
+    rec.nontrivial()
+    return {'answer': a_str, 'student': s_str, 'grade': gd(k, r)}
+
+
 def judge(spec, rec):
     kind = spec['kind']
+    if kind == 'randfunc':
+        return judge_randfunc(spec, rec)
     if kind == 'tightpct':
         return judge_tightpct(spec, rec)
     if kind == 'dyadic':
